@@ -217,18 +217,20 @@ def r2(ctx, lib):
     if b is None:
         return
     cps = b.calls(r'FsCommand::unsafe_copy$|^std::fs::copy$')
-    rms = b.calls(r'FsCommand::remove$|^std::fs::remove_file$')
+    from .common import remove_sites
+    sites = remove_sites(lib, b)
+    rms = [r for r, _ in sites]
     if not cps or not rms:
         ctx.missing('C18.R2', 'copy/remove in move_copy', b.where())
         return
     from ..analysis import result_tests, reachable_state
     ct = result_tests(b, cps[0])
-    src = [r for r in rms if backslice(b, [r.args[0]]).params == {1}]
+    src = [r for r, ps in sites if ps == {1}]
     err_region = reachable_state(b, 0, ct, 'err') if ct else set(range(len(b.blocks)))
     good = bool(ct) and bool(src) and all(r.bb not in err_region for r in src)
     ctx.check(good, 'C18.R2', b.path + '|remove-after-copy', (src[0] if src else rms[0]).where(), 'remove(source) is reached only after the copy succeeded', 'the source can be removed although the copy failed or has not happened')
     # a failed copy leaves nothing under the target directory: the partial target is removed on the failure edge
-    tgt = [r for r in rms if backslice(b, [r.args[0]]).params == {2}]
+    tgt = [r for r, ps in sites if ps == {2}]
     ok_region = reachable_state(b, 0, ct, 'ok') if ct else set()
     # (the other legitimate place for a removal of the target is the failure edge of remove(source): C05.R3 failed-remove-cleans-target)
     rt = result_tests(b, src[0]) if src else []
